@@ -1265,6 +1265,7 @@ fn sgr_face(data: &[u8]) -> FaceModify {
             Some(23) => face.italic = Some(false),
             // underline
             Some(4) => match args.next().and_then(number_decode) {
+                Some(0) => face.underline = Some(UnderlineStyle::None),
                 Some(2) => face.underline = Some(UnderlineStyle::Double),
                 Some(3) => face.underline = Some(UnderlineStyle::Curly),
                 Some(4) => face.underline = Some(UnderlineStyle::Dotted),
